@@ -45,7 +45,7 @@ def main():
     rep = driver.Report(a.pid, a.tier, seed, repo)
     ledger = driver.load_ledger()
     known = driver.load_known()
-    timeout_ms = 20000 if a.tier == "quick" else 60000
+    timeout_ms = 45000 if a.tier == "quick" else 120000
     try:
         for modname in cfg["modules"]:
             mod = importlib.import_module(modname)
